@@ -67,7 +67,7 @@ func expandC10(t *testing.T, seed uint64, tier string) []*core.Plan {
 		case 8:
 			// the next callback takes its time; meanwhile the client is closed (0),
 			// the connection is lost (1), or nothing happens (2)
-			p.Items = append(p.Items, core.Item{K: "hold", A: r.Intn(3)})
+			p.Items = append(p.Items, core.Item{K: "hold", A: r.Intn(4)})
 		}
 	}
 	if r.Chance(1, 6) {
@@ -354,6 +354,54 @@ func runC10(t *testing.T, p *core.Plan) *core.Result {
 				case 1:
 					if bc := r.bc(); bc != nil && !bc.BEOF {
 						bc.Drop()
+					}
+				case 3:
+					// the connection is lost and it is the application's own traffic
+					// that notices (a publish fails: the client is cleaned up while
+					// its processor still sits in the callback); then Close is called.
+					// If Close returns although the callback has not, the application
+					// believes the client is gone and resumes the session elsewhere.
+					if bc := r.bc(); bc != nil && !bc.BEOF {
+						bc.Drop()
+					}
+					w.Settle()
+					cl := r.cur
+					go func() { _, _ = cl.Publish("out/t", []byte("lost"), 1, false) }()
+					w.Settle()
+					closed = make(chan struct{})
+					w.ev(&Ev{K: EvNote, C: w.dials, S: "harness-takes-over"})
+					go func() { _ = cl.Close(); close(closed) }()
+					w.Settle()
+					select {
+					case <-closed:
+						// Close is back while the old client's callback is still
+						// running: carry on like an application that trusts Close
+						res.Count("close_returned_during_callback", 1)
+						held := r.held
+						r.held = nil
+						r.connect()
+						if !r.dead && r.bc() != nil {
+							for _, f := range r.flows {
+								if f.done || f.qos == 0 {
+									continue
+								}
+								f.relSent = false
+								if f.qos == 2 && f.gotRec {
+									f.relSent = true
+									r.sendRel(f.id)
+								} else {
+									r.sendPublish(f, true)
+								}
+							}
+						}
+						w.Settle()
+						r.absorb(prompt)
+						w.Settle()
+						close(held)
+						w.Settle()
+						r.absorb(prompt)
+						continue
+					default:
 					}
 				}
 				w.Settle()
